@@ -299,3 +299,22 @@ func C07(c *Case) *Result {
 	res.NonTriv = res.Tasks > 2
 	return res
 }
+
+// PlainRoundTrip compresses and decompresses without simulation; "" means success.
+func PlainRoundTrip(cfg Config, data []byte) string {
+	stream, err := plainCompress(cfg, data)
+	if err != nil {
+		return "compress: " + err.Error()
+	}
+	ro := plainDecompress(ReaderSpec{Jobs: cfg.DecJobs, Headerless: cfg.Headerless, Cfg: cfg}, stream)
+	if ro.Panic != nil {
+		return fmt.Sprintf("decompress panic: %v", ro.Panic)
+	}
+	if !isEOF(ro.Err) {
+		return "decompress: " + errStr(ro.Err)
+	}
+	if d := diffAt(ro.Data, data); d >= 0 {
+		return fmt.Sprintf("mismatch at %d", d)
+	}
+	return ""
+}
